@@ -10,6 +10,7 @@ import (
 	"os/exec"
 	"path/filepath"
 	"reflect"
+	"regexp"
 	"strings"
 	"testing"
 	"time"
@@ -33,7 +34,7 @@ type C16Tgt struct {
 	MaxSize string
 	Ratio   float64
 	On      bool
-	Inner   C16In
+	C16In   C16In // nested blocks 'def c16_in ...': the key must fold to the field and to the type name
 }
 type C16In struct {
 	Name string
@@ -155,6 +156,32 @@ func observe16(c caseC16) (obs []string) {
 		case <-time.After(timeout20):
 			put("timeout", true)
 		}
+	case "history":
+		// a struct type nobody has bound before (so that anything remembered
+		// per type starts empty), the input X, then a sibling input W that
+		// differs only in how the keys are spelled, then X again: what X gives
+		// must not depend on W having been bound in between
+		historySerial++
+		T := reflect.StructOf([]reflect.StructField{
+			{Name: "Name", Type: reflect.TypeOf("")},
+			{Name: "FooBar", Type: reflect.TypeOf(0), Tag: `bcl:"foo_tag"`},
+			{Name: "Plain", Type: reflect.TypeOf("")},
+			{Name: "MaxSize", Type: reflect.TypeOf(0)},
+			{Name: fmt.Sprintf("Pad%d", historySerial), Type: reflect.TypeOf(false)},
+		})
+		run := func(src string) string {
+			tgt := reflect.New(T)
+			err := bcl.Unmarshal([]byte(src), tgt.Interface(), bcl.OptOutput(io.Discard), bcl.OptLogger(io.Discard))
+			return fmt.Sprintf("%v %+v", errStr(err), tgt.Elem().Interface())
+		}
+		x1 := run(c.Src)
+		w := run(c.Target) // the sibling input travels in Target
+		x2 := run(c.Src)
+		put("x", stripPad(x1))
+		put("w", stripPad(w))
+		if x1 != x2 {
+			put("outcome-depends-on-an-earlier-call", fmt.Sprintf("before: %s; after binding a sibling input: %s", x1, x2))
+		}
 	case "unmarshal":
 		tgt := newTarget16(c.Target)
 		var out, log bytes.Buffer
@@ -181,6 +208,12 @@ func observe16(c caseC16) (obs []string) {
 
 var sharedInput [1 << 16]byte
 
+var historySerial int
+
+var padRe = regexp.MustCompile(`Pad\d+`)
+
+func stripPad(s string) string { return padRe.ReplaceAllString(s, "Pad") }
+
 // tailStats cuts nothing: statistics are part of both runs alike.
 func tailStats(string) string { return "" }
 
@@ -202,6 +235,9 @@ func noise16(i int) {
 
 func checkC16(c caseC16, repeats int) string {
 	first := digest16(c)
+	if i := strings.Index(first, "outcome-depends-on-an-earlier-call="); i >= 0 {
+		return "the outcome of a call depends on a call made earlier in the process: " + clip(first[i:], 600)
+	}
 	if strings.Contains(first, "input-buffer-reuse-changes-the-program=true") {
 		return "a program parsed from a buffer that the caller reuses afterwards differs from the same program parsed from a private copy"
 	}
@@ -273,7 +309,7 @@ func genUnmarshal16(t *rapid.T) (caseC16, []string) {
 		}
 		// named inner blocks of one type onto one field
 		for i, n := 0, gen.Weighted(t, "ninner", 40, 30, 30); i < n; i++ {
-			fmt.Fprintf(&sb, "  def inner %s{ a = %d; %s = \"v%d\" }\n", []string{`"a" `, `"b" `, ""}[i], i+1,
+			fmt.Fprintf(&sb, "  def c16_in %s{ a = %d; %s = \"v%d\" }\n", []string{`"a" `, `"b" `, ""}[i], i+1,
 				gen.Pick(t, "tagspelling", []string{"b_tag", "b_tag", "btag", "B_Tag", "b_tag_", "bb"}), i)
 			if i > 0 {
 				collide++
@@ -309,7 +345,26 @@ func staleSlotFile(t *rapid.T) []byte {
 }
 
 func genC16(t *rapid.T) (caseC16, bool, []string) {
-	switch gen.Weighted(t, "kind", 40, 40, 10, 10) {
+	switch gen.Weighted(t, "kind", 36, 36, 10, 10, 8) {
+	case 4:
+		spell := map[string][]string{
+			"foo_tag": {"foo_tag", "footag", "Foo_Tag", "FOO_TAG", "foo_tag_", "foobar", "foo_bar"},
+			"plain":   {"plain", "Plain", "PLAIN", "p_lain", "plain_"},
+			"maxsize": {"max_size", "maxsize", "MaxSize", "MAX__SIZE"},
+		}
+		var x, w strings.Builder
+		x.WriteString("def t \"n\" {\n")
+		w.WriteString("def t \"n\" {\n")
+		for _, k := range []string{"foo_tag", "plain", "maxsize"} {
+			if gen.Chance(t, 75, "haskey") {
+				val := map[string]string{"foo_tag": "7", "plain": "\"p\"", "maxsize": "3"}[k]
+				fmt.Fprintf(&x, "  %s = %s\n", gen.Pick(t, "xspell", spell[k]), val)
+				fmt.Fprintf(&w, "  %s = %s\n", spell[k][0], val)
+			}
+		}
+		x.WriteString("}\nbind t -> struct\n")
+		w.WriteString("}\nbind t -> struct\n")
+		return caseC16{Kind: "history", Src: x.String(), Target: w.String()}, true, []string{"kind:history"}
 	case 3:
 		in := inputSpec{Lines: gen.Int(t, 600, 3000, "lines"), LexAt: gen.Int(t, 0, 30, "lexline")}
 		c := caseC16{Kind: "file-fault", Input: &in}
